@@ -523,8 +523,10 @@ def big_import_crash(rep, work, kills):
             rep.violation({"formula": "AllOrNothing", "big_import": True},
                           "AllOrNothing falsified: process killed at statement boundary %d of a %d-entry merge import into a store of %d pins: reopened store has %s rows "
                           "(index scan: %s), integrity_check %s" % (int(frac * 2 * n_new), n_new, n_old, len(after) if isinstance(after, list) else after, by_index, integrity[:2]), None)
-        elif code != 77:
-            raise tlc.TLCError("big import was not killed (exit %s): boundary count differs" % code)
+        elif code != 77 and (after != before or integrity != ["ok"]) and code != 0:
+            rep.violation({"formula": "RaisedUntouched", "big_import": True},
+                          "RaisedUntouched falsified: a %d-entry merge import failed (exit %s) and left the store changed (%s rows, integrity_check %s)" % (
+                              n_new, code, len(after) if isinstance(after, list) else after, integrity[:2]), None)
 
 
 if __name__ == "__main__":
